@@ -213,7 +213,7 @@ def run_scenario_property(pid, tier, seed, scale=1.0, extra_outs=(), mc_stats=()
     return _finish(pid, tier, seed, t0, outs, list(mc_stats), P['rule'], ASSUME, extra_cov)
 
 
-def fault_variants(profile, n, seed, per_scenario, tag, fault_calls=None):
+def fault_variants(profile, n, seed, per_scenario, tag, fault_calls=None, scope=None):
     """Base histories run once under the interposer to *measure* the eligible library calls
     (mkdir / makedirs / rename / cache open+write), then one variant per chosen fault point."""
     import copy
@@ -224,6 +224,8 @@ def fault_variants(profile, n, seed, per_scenario, tag, fault_calls=None):
         sc['interpose'] = True
         if fault_calls:
             sc['fault_calls'] = list(fault_calls)
+        if scope:
+            sc['fault_scope'] = scope
         sc['id'] = '%s-%s' % (tag, sc['id'])
         base.append(sc)
     traces = runner.run_scenarios(base)
@@ -462,11 +464,13 @@ def run_property(pid, tier, seed, scale=1.0):
         for fp_ in fprofs:
             scs += fault_variants(fp_, max(1, n // len(fprofs)), seed, per_q if tier == 'quick' else per_t, pid,
                                   P.get('fault_calls'))
+    if P.get('fault_units') or P.get('fault_extra'):
         for fx in P.get('fault_extra', []):
             prof, xq, xt, xpq, xpt = fx[:5]
             fcalls = fx[5] if len(fx) > 5 else P.get('fault_calls')
             scs += fault_variants(prof, max(1, int((xq if tier == 'quick' else xt) * scale)), seed,
-                                  xpq if tier == 'quick' else xpt, pid + '-' + prof if len(fx) > 5 else pid, fcalls)
+                                  xpq if tier == 'quick' else xpt, pid + '-' + prof if len(fx) > 5 else pid, fcalls,
+                                  fx[6] if len(fx) > 6 else None)
         assume.append('fault space = the library\'s own mkdir/makedirs/rename/cache-open/cache-write calls issued '
                       'before commit or rollback starts (C14 statement); one fault per execution')
     if P.get('thread_units'):
@@ -475,6 +479,7 @@ def run_property(pid, tier, seed, scale=1.0):
         fp = P.get('full_pairs', (0, 0))
         scs += schedule_variants(P.get('thread_profile', 'threads'), n, seed, sq if tier == 'quick' else st_,
                                  pq if tier == 'quick' else pt, pid, fp[0] if tier == 'quick' else fp[1])
+    if P.get('thread_units') or P.get('thread_extra'):
         for prof, xq, xt, xsq, xst, xpq, xpt, xfq, xft in P.get('thread_extra', []):
             scs += schedule_variants(prof, int((xq if tier == 'quick' else xt) * scale), seed,
                                      xsq if tier == 'quick' else xst, xpq if tier == 'quick' else xpt, pid,
